@@ -784,3 +784,127 @@ func c06Round5(c *Ctx) {
 		c.Check(ok, "C06.guard", inst, c.P.Pos(fn.Pos()), "the log entry is written only under errors.Is(readTxn.Get(nodeKey) error, ErrKeyNotFound)", why+": a node that a finalized version already had is logged as restored, and aborting the restore deletes it — the finalized root becomes unreadable")
 	}
 }
+
+// c07Round5 (seed C07r5/13): a chunk counts as restored only after its import succeeded. In RestoreChunk the removal
+// of the chunk from the pending set is preceded, on every path, by the success of restoreChunk: a chunk whose import
+// was interrupted (cancelled context, deadline, database error) stays pending, so that the restore is not reported
+// complete — and finalized — without it.
+func c07Round5(c *Ctx, rule string) {
+	fn := c.needFn(rule, "storage/mkvs/checkpoint.(*restorer).RestoreChunk")
+	if fn == nil {
+		return
+	}
+	marks := Ev{Name: "delete(pendingChunks, idx)", Fn: fn}
+	for _, f := range append([]*ssa.Function{fn}, anonFuncs(fn)...) {
+		for _, call := range callsIn(f) {
+			if calleeName(call) == "builtin.delete" && strings.HasSuffix(vstr(allArgs(call)[0]), ".pendingChunks") {
+				marks.Ins = append(marks.Ins, call)
+			}
+		}
+	}
+	imp := CallsTo(fn, "restoreChunk", "storage/mkvs/checkpoint.restoreChunk", "")
+	inst := fname(fn) + ":a chunk leaves the pending set only after its import succeeded"
+	bad := ""
+	for _, m := range marks.Ins {
+		if m.Parent() != fn {
+			bad = "the chunk is removed from the pending set inside " + fname(m.Parent()) + ", which runs before the import"
+		}
+	}
+	if marks.Empty() || imp.Empty() {
+		c.Fail(rule, inst, c.P.Pos(fn.Pos()), "the import (restoreChunk) or the removal from the pending set was not found in RestoreChunk")
+		return
+	}
+	if bad != "" {
+		c.Fail(rule, inst, c.P.InstrPos(marks.Ins[0]), bad+": an interrupted chunk counts as restored, its retry is refused and the restore is reported complete without it")
+		return
+	}
+	c.MustPrecede(rule, fn, imp, marks, "an interrupted chunk import must leave the chunk pending")
+}
+
+// c16Round5 (seeds C16r5/13, 15).
+func c16Round5(c *Ctx) {
+	// (13) a CBOR decoding mode is built from options that are complete at that moment: every store into a field of a
+	// package-level decOptions* variable of common/cbor lies either in the synthetic package initialiser (the variable's
+	// own initialiser) or in the same function as, and before, the DecMode() call that reads that variable. A field set
+	// in another file's init() runs after cbor.go's init() has already built the mode (init functions run in file-name
+	// order), and the mode silently keeps the default — e.g. 32 nested levels instead of the free-form bound.
+	const pk = "common/cbor"
+	nSt := 0
+	for _, fn := range c.P.FuncsInPkg(pk) {
+		if fn.Blocks == nil {
+			continue
+		}
+		for _, b := range fn.Blocks {
+			for _, in := range b.Instrs {
+				st, ok := in.(*ssa.Store)
+				if !ok {
+					continue
+				}
+				fa, ok := st.Addr.(*ssa.FieldAddr)
+				if !ok {
+					continue
+				}
+				g, ok := fa.X.(*ssa.Global)
+				if !ok || !strings.HasPrefix(g.Name(), "decOptions") {
+					continue
+				}
+				nSt++
+				if fn.Synthetic != "" && strings.HasPrefix(fn.Synthetic, "package initializer") {
+					continue
+				}
+				// same function: a DecMode() call on this variable is reachable after the store, and none before it
+				var builds []ssa.Instruction
+				for _, call := range callsIn(fn) {
+					if strings.HasSuffix(calleeName(call), "cbor/v2.(DecOptions).DecMode") && strings.Contains(vstr(allArgs(call)[0]), "global:"+pk+"."+g.Name()) {
+						builds = append(builds, call)
+					}
+				}
+				ok2 := len(builds) > 0 && Reach(fn, st, nil, anyOf(builds), nil) != nil
+				c.Check(ok2, "C16.cbor", fname(fn)+":"+g.Name()+"."+fieldName(fa.X.Type(), fa.Field)+" is set before the mode is built from it", c.P.InstrPos(st), "the field is set in the function that then builds the mode", "a field of the decoding options "+g.Name()+" is set in "+fname(fn)+", which does not build the decoding mode from them afterwards: the mode was (or will be) built by another initialiser without this setting — Go runs a package's init functions in file-name order — and the limit silently stays at the library default")
+			}
+		}
+	}
+	c.Floor("C16.cbor", nSt, 1, "field stores into decOptions* variables of common/cbor")
+
+	// (15) the proof verifier dereferences a pointer that may be nil (a phi with a nil edge: the reconstructed root of
+	// an empty proof) only behind that pointer's nil test — also on error paths, where only the message is built.
+	for _, name := range []string{"storage/mkvs/syncer.(*ProofVerifier).verifyProofOpts", "storage/mkvs/syncer.(*ProofVerifier).verifyProof"} {
+		fn := c.needFn("C16.panic", name)
+		if fn == nil {
+			continue
+		}
+		n, bad := 0, ""
+		check := func(v ssa.Value, at ssa.Instruction) {
+			phi, ok := v.(*ssa.Phi)
+			if !ok {
+				return
+			}
+			hasNil := false
+			for _, e := range phi.Edges {
+				if isNilConst(e) {
+					hasNil = true
+				}
+			}
+			if !hasNil {
+				return
+			}
+			n++
+			if !knownNonNilAt(phi, at) {
+				bad = c.P.InstrPos(at) + " (" + vstrShort(phi) + ")"
+			}
+		}
+		for _, b := range blocksIP(fn) {
+			for _, in := range b.Instrs {
+				switch x := in.(type) {
+				case *ssa.FieldAddr:
+					check(x.X, in)
+				case *ssa.UnOp:
+					if x.Op.String() == "*" {
+						check(x.X, in)
+					}
+				}
+			}
+		}
+		c.Check(bad == "", "C16.panic", fname(fn)+":a possibly-nil pointer is dereferenced only behind its nil test", c.P.Pos(fn.Pos()), itoa(n)+" dereference(s) of pointers that are nil on some path, each behind the pointer's nil test", "a pointer that is nil on some path is dereferenced at "+bad+" without a nil test of it: a proof chosen to take that path (e.g. a single nil entry) crashes the verifier instead of being rejected")
+	}
+}
